@@ -2,6 +2,7 @@ package harness
 
 import (
 	"bytes"
+	"context"
 	"fmt"
 	"log/syslog"
 	"net"
@@ -12,6 +13,7 @@ import (
 	"syscall"
 
 	tq "github.com/facebookincubator/tacquito"
+	"github.com/facebookincubator/tacquito/cmds/server/config"
 	reallog "github.com/facebookincubator/tacquito/cmds/server/log"
 	"verif/harness/cfggen"
 	"verif/harness/model"
@@ -63,6 +65,18 @@ type refEnv struct {
 	realOut *lockedBuf
 	// syslogd is the harness end of the syslog accounter's socket (refOpts.syslog)
 	syslogd *syslogd
+}
+
+// faultyKeychain is a shared-secret keychain (a "secure store") whose lookup fails for some keys.
+type faultyKeychain map[string]bool
+
+func (f faultyKeychain) Add(k config.Keychain) func(context.Context, string) ([]byte, error) {
+	return func(ctx context.Context, remote string) ([]byte, error) {
+		if f[k.Key] {
+			return nil, fmt.Errorf("keychain: session expired")
+		}
+		return []byte(k.Key), nil
+	}
 }
 
 // syslogd is a unixgram socket standing in for the system log service.
@@ -145,6 +159,8 @@ type refOpts struct {
 	recover  bool // swallow handler panics (recorded) instead of dying
 	quiet    bool // use the lock-free no-op logger
 	proxy    bool // run the server with SetUseProxy(true)
+	// faultyKeys: shared-secret keys whose keychain lookup fails at connection time
+	faultyKeys []string
 	// syslog: also register the syslog accounter, writing to a datagram socket the harness reads
 	syslog bool
 	// realLog > 0: every log call is also passed to the reference logger (cmds/server/log) at this level,
@@ -171,6 +187,13 @@ func startRefDoc(doc []byte, o refOpts) (*refEnv, error) {
 		lg = refsrv.NopLogger{}
 	}
 	ro := refsrv.Options{Logger: lg, Sink: e.sink, Keychain: o.keychain, Format: o.format}
+	if len(o.faultyKeys) > 0 {
+		fk := faultyKeychain{}
+		for _, k := range o.faultyKeys {
+			fk[k] = true
+		}
+		ro.SecretKeychain = fk
+	}
 	if o.syslog {
 		sd, err := newSyslogd()
 		if err != nil {
